@@ -28,6 +28,7 @@ pub fn evals(prop: &str) -> Vec<(&'static str, &'static str)> {
         ("corr_gen", "corr_gen"),
         ("corr_paths", "corr_paths"),
         ("corr_upcasts", "corr_upcasts"),
+        ("corr_dedup_obs", "corr_dedup_obs"),
     ];
     match prop {
         "C01" => v.extend([("prop_faithful", "prop_faithful"), ("prop_faithful_all", "prop_faithful_all"),
